@@ -436,7 +436,7 @@ def judge_document(ck, judge, data, lakey, what, rp0, convs=("text", "xml"), sin
                 bad = judge.xml_predicates(real_s, lambda: C.real_tree_events(Tp, objs, strip, False), rp, what, strip=strip)
                 if bad:
                     ck.violation("xml:" + bad.split(":")[0], "xml output of %s equals the intended model's but fails %s" % (what, bad), rp)
-            if conv == "xml":
+            if conv == "xml" and more_codecs:
                 # the other spelling of "no codec" on a text sink
                 fp2 = io.StringIO()
                 from pdfminer.high_level import extract_text_to_fp as _x
@@ -448,7 +448,7 @@ def judge_document(ck, judge, data, lakey, what, rp0, convs=("text", "xml"), sin
                                      % (what, fp2.getvalue()[:60]), dict(rp, observed=fp2.getvalue()[:2000]))
                 except Exception as e:  # noqa: BLE001
                     ck.violation("text-sink:codec-empty:exception:" + type(e).__name__, "extract_text_to_fp(xml, StringIO, codec=\"\") raised %r" % e, rp)
-            if conv == "text":
+            if conv == "text" and more_codecs:
                 # a TEXT sink takes characters: whatever `codec` is passed along, they arrive unchanged
                 for tcodec in ("latin-1", "ascii", "cp1252", ""):
                     got = run_high_level(data, "text", "text", tcodec, la, False)
